@@ -253,6 +253,14 @@ def external_streams(ctx) -> list:
 def replay_pa(ctx, body):
     import core
 
+    if body.get("mode") == "flat-long":  # too long to store: rebuilt from its parameters
+        import checks_b
+
+        g = body["gen"]
+        data, _, per_frame, _, bounds = checks_b.long_frame_stream(g["width"], g["statements"], g["frame_size"])
+        pv, e, last, nwant = checks_b.long_frame_cut(data, per_frame, bounds, body["cut"], g["carrier"], g["sched"])
+        print(f"long frame stream of {len(data)} bytes cut at {body['cut']}: end {e}, last events {last}, {nwant} statements expected")
+        return pv
     data = core.unhx(body["bytes"])
     ds = fam_parse.run_parse_case(ctx, data, None, igs=(body.get("ig", "g"),), modes=(body.get("mode", "flat"),), strict=body.get("strict", False))
     end, evs, err = fam_parse.impl_flat(body.get("ig", "g"), data)
@@ -307,6 +315,11 @@ def rdflib_case(ctx, cls=None, entry=None, nd=None, fits=True):
     case = {"cfg": cfg, "stmts": stmts, "ns": ns, "data": data, "entry": entry, "oracles": ["roundtrip", "spec", "flushed"]}
     if entry == "serialize":
         case["pass_stream"] = cls == "G" or r.random() < 0.4
+    if data == "dataset" and r.random() < 0.35:
+        # a dataset also holds named graphs that were opened (ds.graph(name)) and never filled, or filled later: they are listed by
+        # Dataset.graphs() wherever the store's hash order puts them
+        pool = [("I", "http://e.org/g-empty"), ("I", "http://f.org#h"), ("I", "urn:empty"), ("B", "ge0"), ("I", "http://e.org/p/q/name")]
+        case["empty_graphs"] = r.sample(pool, r.randint(1, 3))
     return case
 
 
@@ -373,6 +386,15 @@ def replay_en(ctx, body):
     import core
     from core import Cfg
 
+    if body.get("entry") == "grouped_both":
+        import checks_c
+
+        groups = [[parse_stmt_tok(t) for t in x] for x in body["groups"]]
+        c = body["cfg"]
+        a, b = checks_c.c15_grouped_case(len(groups), groups, [tuple(x) for x in body.get("ns", [])], c["frame_size"], c["nd"], c["maxp"])
+        print("generic:", str(a)[:400])
+        print("rdflib :", str(b)[:400])
+        return body["property_violation"]["what"] if a != b else None
     cfg = Cfg(**{k: (tuple(v) if k == "flow" and v is not None else v) for k, v in body["cfg"].items()})
     stmts = [parse_stmt_tok(t) for t in body["stmts"]]
     case = {"cfg": cfg, "stmts": stmts, "ns": [tuple(x) for x in body.get("ns", [])], "sink": body.get("sink", False),
